@@ -45,12 +45,12 @@ PROPS['C15'] = dict(
 )
 PROPS['C18'] = dict(
   level='proof',
-  verus=[dict(unit='bytecode', min_functions=10), dict(unit='peephole', min_functions=8), dict(unit='lines', min_functions=6), dict(unit='pipeline', min_functions=1), dict(unit='unwind', min_functions=2), dict(unit='scannerd', min_functions=6), dict(unit='parserd', min_functions=1), dict(unit='exitpath', min_functions=2), dict(unit='signalvm', min_functions=1)],
+  verus=[dict(unit='bytecode', min_functions=10), dict(unit='peephole', min_functions=8), dict(unit='lines', min_functions=6), dict(unit='pipeline', min_functions=1), dict(unit='unwind', min_functions=2), dict(unit='scannerd', min_functions=6), dict(unit='parserd', min_functions=1), dict(unit='exitpath', min_functions=2), dict(unit='signalvm', min_functions=1), dict(unit='unwindvm', min_functions=1)],
   not_decided=['the text of each traceback line (which frame, ip and code offset it is computed from IS decided), the Exit native narrowing its argument to u16 (exit(70000), exit(-1)), process::exit in main.rs'],
 )
 PROPS['C04'] = dict(
   level='proof',
-  verus=[dict(unit='peephole', min_functions=2), dict(unit='bytecode', min_functions=1), dict(unit='ops', min_functions=6), dict(unit='unwind', min_functions=6), dict(unit='hooks', min_functions=2), dict(unit='compilerd', min_functions=6), dict(unit='catchd', min_functions=1), _findings_variant(['spec:handler_depth_is_live_depth']), dict(unit='parsertry', min_functions=1), dict(unit='parserret', min_functions=1)],
+  verus=[dict(unit='peephole', min_functions=2), dict(unit='bytecode', min_functions=1), dict(unit='ops', min_functions=6), dict(unit='unwind', min_functions=6), dict(unit='hooks', min_functions=2), dict(unit='compilerd', min_functions=6), dict(unit='catchd', min_functions=1), _findings_variant(['spec:handler_depth_is_live_depth']), dict(unit='parsertry', min_functions=1), dict(unit='parserret', min_functions=1), dict(unit='unwindvm', min_functions=1)],
   not_decided=['PopHandler emission: return / break / continue / try itself ARE decided (compilerd unit); that statements are compiled at the try depth of their enclosing try blocks is the composition of those contracts over the AST (each step checked, the induction not)', 'A-hist: the pointers already collected for an error do not reach below the frame now searched (pause_unwind precondition)',
                'the raw-pointer stores of stack_unwind (ip, stack top, current frame) are one stub (vx/units/unwind/prelude.rs); Vm::stack_unwind / execute loop around it'],
 )
